@@ -143,6 +143,12 @@ def classify(c, status):
             f"/rows={'>297' if c['r1'] > 297 else ('=297' if c['r1'] == 297 else '<297')}")
 
 
+def in_domain(c):
+    """the inputs the theorems quantify over: the call must produce output"""
+    return (1 <= c["id"] < 2**32 and 0 <= c["pid"] < 2**24 and 0 <= c["c0"] < c["c1"] and 0 <= c["r0"] < c["r1"] and c["c0"] < pc.TABLE_LEN
+            and 1 <= c["mode"][3] <= 4 and 0 <= c["mode"][4] <= 4 and not (c.get("pos") is not None and c.get("use_lf")))
+
+
 def compare(ctx, cov, cases, impl_res, model_reps, what):
     ok_idx = []
     for i, (c, (ist, iw), rep) in enumerate(zip(cases, impl_res, model_reps)):
@@ -158,6 +164,10 @@ def compare(ctx, cov, cases, impl_res, model_reps, what):
                                     "model": [mst, None if mw is None else [hexs(x)[:300] for x in mw[:6]]], "first_differing_write": k})
         if ist == "OK":
             ok_idx.append(i)
+        elif in_domain(c):
+            ctx.violations.append({"signature": {"class": "raises-on-legal-input", "exception": ist},
+                                   "what": f"{c['api']} raises {ist} for a legal placeholder (id, placement id, rectangle with start column < 297, constructible mode)",
+                                   "case": {"kind": "call", "case": c}})
     return ok_idx
 
 
@@ -266,4 +276,7 @@ def replay(ctx, model, rec):
         rep = model.one(pc.render_request(scr["W"], scr["H"], scr["cur"][0], scr["cur"][1], c["style"] == "lf", b"".join(writes)))
         bad = oracle_check(c, scr, None, pc.parse_render(rep))
         return {"violates": bad is not None, "observed": bad}
+    if case.get("kind") == "call":
+        st, _ = pc.run_impl(tup, case["case"])
+        return {"violates": st != "OK", "implementation": st}
     return {"violates": False, "note": "unknown replay kind"}
